@@ -324,6 +324,12 @@ func execC21(v *vctx, tok []string) string {
 		total := take * len(zoneCount)
 		switch {
 		case nodes != nil:
+			for q := 1; q < len(nodes); q++ {
+				if nodes[q] == nodes[q-1] { // nodes are sorted positions
+					v.Violation("shard-duplicate-node", fmt.Sprintf("tenant %q: node %d (%s) is in the sub-ring twice: %s — fewer distinct nodes than configured", t, nodes[q], eps[nodes[q]].addr, a))
+					break
+				}
+			}
 			inZone := map[string]int{}
 			for _, p := range nodes {
 				if s.za {
@@ -351,15 +357,19 @@ func execC21(v *vctx, tok []string) string {
 				}
 				v.Violation(class, fmt.Sprintf("tenant %q: configured shard size %d (%d per zone in %d zones), sub-ring has %v per zone", t, want, take, len(zoneCount), inZone))
 			}
-			// stability
-			h2, err2 := ring.TenantShard(t)
-			a2, _ := nodesOf(h2, err2, idx)
-			h3, err3 := fresh.TenantShardCached(t)
-			a3, _ := nodesOf(h3, err3, idx)
-			h4, err4 := permuted.TenantShardCached(t)
-			a4, _ := nodesOf(h4, err4, idx)
-			if a2 != a || a3 != a || a4 != a {
-				v.Violation("unstable-shard", fmt.Sprintf("tenant %q: cached %s, uncached %s, fresh instance %s, permuted endpoint list %s", t, a, a2, a3, a4))
+			// stability (for the 100+ tenants of a large ring: every 8th tenant — each check builds a sub-ring
+			// of 1000 sections per node)
+			large := len(eps) > 60
+			if !large || k%8 == 0 {
+				h2, err2 := ring.TenantShard(t)
+				a2, _ := nodesOf(h2, err2, idx)
+				h3, err3 := fresh.TenantShardCached(t)
+				a3, _ := nodesOf(h3, err3, idx)
+				h4, err4 := permuted.TenantShardCached(t)
+				a4, _ := nodesOf(h4, err4, idx)
+				if a2 != a || a3 != a || a4 != a {
+					v.Violation("unstable-shard", fmt.Sprintf("tenant %q: cached %s, uncached %s, fresh instance %s, permuted endpoint list %s", t, a, a2, a3, a4))
+				}
 			}
 			// inside
 			in := map[int]bool{}
@@ -367,7 +377,11 @@ func execC21(v *vctx, tok []string) string {
 				in[p] = true
 			}
 			r := hlib.NewRand(uint64(k)*977 + 13)
-			for q := 0; q < 12; q++ {
+			nser := 12
+			if large {
+				nser = 3
+			}
+			for q := 0; q < nser; q++ {
 				ser := genSeries(r)
 				ser.tenant = t
 				seen := map[string]bool{}
@@ -760,6 +774,45 @@ func genC21(c *hlib.Ctx) {
 			zaTok = "1"
 		}
 		c.Do(fmt.Sprintf("shard %s %d %d %s %d %s %s", zaTok, rf, capa, showEps(eps), dflt, showShardOvs(ovs), strings.Join(reqs, ";")), true)
+	}
+	// large rings: 65..130 endpoints in 2..4 zones (at most 64 per zone, or one zone above 64), 2..6 nodes
+	// taken per zone, 100+ tenants per ring; one section per node in the base ring keeps the op small
+	for i := 0; i < c.N(2, 14) && !gaveUp(); i++ {
+		l := largeLayout(r, i%2 == 1)
+		if i%2 == 1 {
+			c.Count("gen:large:zone>64")
+		} else {
+			c.Count("gen:large:zones<=64")
+		}
+		eps := materialise(r, l, 1)
+		za := r.Chance(5, 6)
+		take := r.Range(2, c.N(3, 4))
+		dflt := take * len(l)
+		if !za {
+			dflt = r.Range(4, 12)
+		}
+		rf := r.Range(1, 3)
+		var ovs []shardOv
+		if r.Bool() {
+			ovs = append(ovs, shardOv{typ: "g", size: r.Range(2, 6) * len(l), tenants: []string{"tenant-1*"}})
+		}
+		// 100+ tenants per ring, asked in ops of 25 (every sub-ring has 1000 sections per selected node)
+		nt := r.Range(100, 125)
+		base := r.Intn(1000)
+		zaTok := "0"
+		if za {
+			zaTok = "1"
+		}
+		c.Count(fmt.Sprintf("gen:large:endpoints:%d0s", l.total()/10))
+		for from := 0; from < nt && !gaveUp(); from += 25 {
+			var reqs []string
+			for k := from; k < from+25 && k < nt; k++ {
+				reqs = append(reqs, shardReqToken(za, eps, ovs, fmt.Sprintf("tenant-%d", base+k)))
+			}
+			reqs = append(reqs, reqs[r.Intn(len(reqs))], reqs[r.Intn(len(reqs))]) // repeats: cache hits
+			c.Count("gen:large:tenants-25")
+			c.Do(fmt.Sprintf("shard %s %d %d %s %d %s %s", zaTok, rf, 200, showEps(eps), dflt, showShardOvs(ovs), strings.Join(reqs, ";")), true)
+		}
 	}
 	// configuration updates: ring A, then ring B with the same registerer and name and a changed configuration
 	for i := 0; i < c.N(60, 400) && !gaveUp(); i++ {
